@@ -605,14 +605,18 @@ class Mutations:
             elif eval_module.activation is None:
                 no_activation = True
 
-            # Nothing is changed (and nothing reported) without activation capabilities
-            if no_activation:
-                warnings.warn(
-                    "Found no activation mutation capabilities. We advise setting the probability to "
-                    "0.0 to disable activation mutations."
-                )
-                break
+        # Nothing is changed (and nothing reported) without activation capabilities
+        # (decided before the first network is touched)
+        if no_activation:
+            warnings.warn(
+                "Found no activation mutation capabilities. We advise setting the probability to "
+                "0.0 to disable activation mutations."
+            )
+            individual.mut = "None"
+            return individual
 
+        for network_group in registry.groups:
+            eval_module: OffspringType = getattr(individual, network_group.eval)
             if isinstance(eval_module, list):
                 eval_module = [self._permutate_activation(mod) for mod in eval_module]
             else:
